@@ -6,8 +6,8 @@ Decides, by guided exploration of the three HTTP response paths with substituted
     is followed, on every path to a normal return, by the budget check on that buffer's size — a body
     over `max_response_bytes` ends in an error response written to a *fresh* buffer; a predicted upload
     over `max_externalized_response_bytes` is refused before the upload call; an actual upload over
-    the cap (prediction is only a lower bound) also ends in an error; the budget call is fed
-    buffer.tell(), the upload call's byte count and the app's two caps;
+    the cap (prediction is only a lower bound) also ends in an error (the budget helper is evaluated
+    with the arguments the path really passes);
 (X) exchange `_run_http_exchange_turn`: the same four clauses;
 (P) producer `_run_http_producer_turn`: no further process() once the measured body is over the wire
     cap, and a capped turn ends with a continuation sentinel; the measured stream sees every byte the
@@ -42,6 +42,7 @@ from ._g3_helpers import (
     check_turn_measure,
     check_turn_stops_over_wire_cap,
     ctorlike,
+    error_write_calls,
     kwarg,
     turn_env,
     turn_facts,
@@ -142,25 +143,8 @@ def _path_checks(ctx: Ctx, fi: FunctionInfo, label: str, *, write_sites: list[tu
     ctx.check(not o2.returns_normally, "RF-DOM", f"{label}:actual-upload-checked", fi, upload,
               ok="an actual upload of cap+1 bytes (prediction at the cap) ends in an error response",
               bad="an actual upload over max_externalized_response_bytes (the prediction is only a lower bound) is returned as a success")
-    # ---- the budget call's arguments
-    ecalls = calls_to(ctx, fi, enforce_fi.name)
-    if not ecalls:
-        ctx.fail("RF-TABLE", f"{label}:budget-call-arguments", fi, None, "the path never calls _enforce_response_budgets")
-        return
-    for ec in ecalls:
-        wb, eb, wc, xc = (kwarg(ec, k) for k in ("wire_bytes", "external_bytes", "wire_cap", "external_cap"))
-        problems = []
-        wbufs = {b for b in (_writer_buffer(fi, s) for _k, s in write_sites) if b}
-        if wb is None or not any(isinstance(c, ast.Call) and last_attr(c) == "tell" and isinstance(c.func, ast.Attribute) and txt(c.func.value) in wbufs for c in ast.walk(wb)):
-            problems.append(f"wire_bytes=`{txt(wb) if wb is not None else 'missing'}` is not the written buffer's tell()")
-        after_upload = bool(cfg.reach(cfg.done(cfg.stmt_of(upload)), include_start=False) & cfg.attempt(ec))
-        if after_upload and (eb is None or txt(upload) not in alias_roots(fi, eb)):
-            problems.append(f"external_bytes=`{txt(eb) if eb is not None else 'missing'}` does not derive from the upload call's byte count")
-        if wc is None or not txt(wc).endswith("._max_response_bytes"):
-            problems.append(f"wire_cap=`{txt(wc) if wc is not None else 'missing'}` is not the app's max_response_bytes")
-        if after_upload and (xc is None or not txt(xc).endswith("._max_externalized_response_bytes")):
-            problems.append(f"external_cap=`{txt(xc) if xc is not None else 'missing'}` is not the app's max_externalized_response_bytes")
-        ctx.check(not problems, "RF-TABLE", f"{label}:budget-call-arguments", fi, ec, ok="budget check is fed tell(), uploaded bytes and both app caps", bad="; ".join(problems))
+    # (the arguments of the budget call are not matched syntactically: the scenarios above evaluate the
+    #  call with the values the path really passes, so a wrong argument shows up as a failed scenario)
 
 
 def _upload_capable(ctx: Ctx) -> dict[str, FunctionInfo]:
@@ -239,7 +223,7 @@ def run(ctx: Ctx) -> None:
         if last_attr(c) == "write_batch" and c.args and _writer_buffer(un, c) is not None:
             sites.append((f"write_batch({txt(c.args[0])})", c))
     pred = calls_to(ctx, un, "predict_externalize_bytes_for_batch")
-    _path_checks(ctx, un, "unary", write_sites=sites, upload=uploads[0], predicts=pred, err_calls=calls_to(ctx, un, "_write_error_batch"), enforce_fi=enforce)
+    _path_checks(ctx, un, "unary", write_sites=sites, upload=uploads[0], predicts=pred, err_calls=error_write_calls(ctx, un), enforce_fi=enforce)
     # the prediction is about the batch that is uploaded
     pb = kwarg(uploads[0], "prebuilt")
     same = bool(pred) and pb is not None and any(txt(pb) == txt(a) for p in pred for a in p.args)
@@ -251,7 +235,7 @@ def run(ctx: Ctx) -> None:
     flushes = calls_to(ctx, xt, "_flush_collector")
     if len(flushes) != 1:
         raise AnalysisError("anchor=_flush_collector call in _run_http_exchange_turn")
-    errs = calls_to(ctx, xt, "_exchange_error_response") + calls_to(ctx, xt, "_write_error_batch")
+    errs = error_write_calls(ctx, xt)
     _path_checks(ctx, xt, "exchange", write_sites=[("collector", flushes[0])], upload=flushes[0], predicts=calls_to(ctx, xt, "predict_externalize_bytes_for_collector"), err_calls=errs, enforce_fi=enforce)
 
     # ------------------------------------------------------------------ P: producer turn
